@@ -1,0 +1,48 @@
+//go:build verif
+
+package requests
+
+import "time"
+
+// VerifRequest is a snapshot of one request.
+type VerifRequest struct {
+	Index     uint32
+	Cancelled bool
+}
+
+func (rs *Requests) VerifQueue() []uint32 {
+	var out []uint32
+	for _, q := range rs.queue {
+		out = append(out, q.index)
+	}
+	return out
+}
+
+func (rs *Requests) VerifRequested() []VerifRequest {
+	var out []VerifRequest
+	for _, r := range rs.requested {
+		out = append(out, VerifRequest{r.index, r.Cancelled()})
+	}
+	return out
+}
+
+func (rs *Requests) VerifMember(index uint32) bool { return rs.bitmap.Get(int(index)) }
+
+// VerifAge moves every recorded time of every request d into the past, which
+// is how the harness makes a fake clock advance.
+func (rs *Requests) VerifAge(d time.Duration) {
+	z := time.Time{}
+	for i := range rs.queue {
+		rs.queue[i].qtime = rs.queue[i].qtime.Add(-d)
+	}
+	for i := range rs.requested {
+		r := &rs.requested[i]
+		r.qtime = r.qtime.Add(-d)
+		if !r.rtime.Equal(z) {
+			r.rtime = r.rtime.Add(-d)
+		}
+		if !r.ctime.Equal(z) {
+			r.ctime = r.ctime.Add(-d)
+		}
+	}
+}
